@@ -21,7 +21,7 @@ enum { EV_SCHED_CALL = 1, EV_SCHED_RET, EV_CANCEL_CALL, EV_CANCEL_RET, EV_INVOKE
        EV_ACQUIRE };
 
 enum { F_CANCEL_FAR, F_CANCEL_RACING, F_CANCEL_FROM_TASK, F_RELEASE_RIGHT_AFTER_SCHEDULE, F_PENDING_AT_RELEASE, F_SELF_RESCHEDULE,
-       F_TASK_SCHEDULES_TASK, F_MULTI_CLIENT, F_FINAL_RELEASE_BY_CLIENT, F_RUN_THEN_CANCELED_AMBIGUOUS, F_RELEASE_WHEN_IDLE, F_TIMED_TASK_RAN, F_CANCEL_BEFORE_TIME };
+       F_TASK_SCHEDULES_TASK, F_MULTI_CLIENT, F_FINAL_RELEASE_BY_CLIENT, F_RUN_THEN_CANCELED_AMBIGUOUS, F_RELEASE_WHEN_IDLE, F_TIMED_TASK_RAN, F_CANCEL_BEFORE_TIME, F_REENTER_FROM_CANCELED };
 
 #define MAX_TASKS 96
 #define MAX_CLIENTS 3
@@ -30,7 +30,7 @@ enum { F_CANCEL_FAR, F_CANCEL_RACING, F_CANCEL_FROM_TASK, F_RELEASE_RIGHT_AFTER_
 
 enum when { W_NOW, W_NEAR, W_FAR, W_PAST };
 enum act_kind { A_SCHED, A_CANCEL, A_ACQ_REL, A_PAUSE };
-enum fn_script { S_NONE, S_SCHED_CHILD, S_CANCEL_OTHER, S_SELF_RESCHED, S_BUSY };
+enum fn_script { S_NONE, S_SCHED_CHILD, S_CANCEL_OTHER, S_SELF_RESCHED, S_BUSY, S_ON_CANCEL_REENTER };
 
 struct vtask {
     struct aws_task task;
@@ -40,6 +40,7 @@ struct vtask {
     uint64_t near_delta_ns;
     enum fn_script script;
     int script_target; /* child task id / victim id */
+    int script_target2; /* S_ON_CANCEL_REENTER: task scheduled from the cancelled callback */
     bool cancel_planned;
     bool cancel_from_task;
     uint32_t busy_us;           /* S_BUSY: the function keeps the scheduler thread busy this long when RUN */
@@ -150,6 +151,10 @@ static void task_fn(struct aws_task *task, void *arg, enum aws_task_status statu
             default:
                 break;
         }
+    } else if (vt->script == S_ON_CANCEL_REENTER) {
+        /* a cancelled parent cancels its child and queues a follow-up: the scheduler is re-entered from a CANCELED callback */
+        do_cancel(&S.tasks[vt->script_target]);
+        do_schedule(&S.tasks[vt->script_target2]);
     } else if (vt->slow_on_cancel_us) {
         struct timespec ts = {0, (long)vt->slow_on_cancel_us * 1000};
         nanosleep(&ts, NULL);
@@ -581,6 +586,40 @@ static void run_case(void) {
     for (int c = 0; c < S.nclients; ++c) {
         pthread_join(th[c], NULL);
     }
+    if (!main_releases_early && mon_chance(r, 1, 3) && S.ntasks + 5 < MAX_TASKS) {
+        struct vtask *P = &S.tasks[S.ntasks], *C = &S.tasks[S.ntasks + 1], *F = &S.tasks[S.ntasks + 2], *probe = &S.tasks[S.ntasks + 3];
+        memset(P, 0, 4 * sizeof(*P));
+        for (int k = 0; k < 4; ++k) {
+            struct vtask *vt = &S.tasks[S.ntasks + k];
+            vt->id = S.ntasks + k;
+            vt->owner = 9;
+            vt->when = k < 2 ? W_FAR : W_NOW;
+            vt->near_delta_ns = mon_below(r, 1000000);
+            aws_task_init(&vt->task, task_fn, vt, "c08-reentry");
+        }
+        F->owner = -1;
+        P->script = S_ON_CANCEL_REENTER;
+        P->script_target = C->id;
+        P->script_target2 = F->id;
+        P->cancel_planned = true;
+        C->cancel_planned = true;
+        C->cancel_from_task = true;
+        S.ntasks += 4;
+        do_schedule(P);
+        do_schedule(C);
+        do_schedule(probe);
+        uint64_t t0 = now_ns();
+        while (!__atomic_load_n(&probe->done, __ATOMIC_ACQUIRE) && now_ns() - t0 < 5000000000ULL) {
+        }
+        do_cancel(P);
+        /* the follow-up must run: wait for it (a scheduler thread stuck in the callback shows as the scenario watchdog) */
+        while (!__atomic_load_n(&F->done, __ATOMIC_ACQUIRE)) {
+            struct timespec ts = {0, 200000};
+            nanosleep(&ts, NULL);
+        }
+        mon_flag(F_REENTER_FROM_CANCELED);
+        mon_count("scheduler_reentered_from_a_CANCELED_callback", 1);
+    }
     if (!main_releases_early) {
         if (final_sched && S.ntasks < MAX_TASKS) {
             /* history D6: schedule, then release immediately */
@@ -663,7 +702,8 @@ int main(int argc, char **argv) {
     mon_watchdog_disarm();
     static const char *names[] = {"cancel_far_future_strict", "cancel_racing_by_client", "cancel_from_task_on_scheduler_thread", "release_right_after_schedule",
                                   "tasks_pending_at_release", "self_reschedule", "task_schedules_task", "multiple_clients", "final_release_by_client",
-                                  "run_then_canceled_ambiguous", "release_right_after_last_task_returned_scheduler_empty", "timed_task_ran", "cancel_returned_before_task_time_strict"};
+                                  "run_then_canceled_ambiguous", "release_right_after_last_task_returned_scheduler_empty", "timed_task_ran", "cancel_returned_before_task_time_strict",
+                                  "cancel_and_schedule_from_a_CANCELED_callback"};
     for (int i = 0; i < (int)(sizeof(names) / sizeof(names[0])); ++i) {
         mon_flag_name(i, names[i]);
     }
